@@ -2651,6 +2651,7 @@ def catch(
     eval_hash: str
     args_hash: str
     recover_expr: Any = None
+    evaluated_expr: Any = expr  # The expression that is evaluated (`expr` or its cached form).
 
     def on_success(result: Result) -> Result:
         # Cache `expr` if catch is ultimately successful.
@@ -2671,7 +2672,7 @@ def catch(
             if isinstance(error, error_class):
                 # Record dataflow for caught error:
                 #   expr --> error --> recover(error) --> sexpr
-                error_expr = derive_expression(expr, error)
+                error_expr = derive_expression(evaluated_expr, error)
                 recover_expr = recover(error_expr)
                 derive_expression(recover_expr, sexpr)
 
@@ -2699,6 +2700,10 @@ def catch(
             allowed_cache_results={CacheResult.SINGLE},
         )
         if cache_type != CacheResult.MISS:
+            # Record dataflow through the cached expression (`expr` or a past `recover_expr`),
+            # which is the one that is evaluated:  cached_expr --> sexpr
+            evaluated_expr = cached_expr
+            derive_expression(cached_expr, sexpr)
             return scheduler.evaluate(cached_expr, parent_job=parent_job).catch(promise_catch)
 
     return scheduler.evaluate(expr, parent_job=parent_job).then(on_success, promise_catch)
